@@ -70,7 +70,11 @@ func runC01(r *Run) {
 			G{Name: "majority", Pattern: "(" + vsum + ".PrecommitBlockPower[" + vsum + ".MostVotedPrecommitHash] < @tmconsensus.ByzantineMajority(" + vsum + ".AvailablePower))", Holds: false,
 				Filter: func(b Bind) bool { return b["$s"].K == "param" }},
 			G{Name: "non-nil-hash", Pattern: "(" + vsum + `.MostVotedPrecommitHash == "")`, Holds: false},
-			G{Name: "header-matches-hash", Pattern: "($s.Voting.RoundView.ProposedHeaders[$i].Header.Hash == " + vsum + ".MostVotedPrecommitHash)", Holds: true},
+			G{Name: "header-matches-hash", Pattern: "($s.Voting.RoundView.ProposedHeaders[$i].Header.Hash == " + vsum + ".MostVotedPrecommitHash)", Holds: true,
+				// the same search written with slices.IndexFunc: found (index >= 0) by a predicate
+				// closure comparing the element's header hash with the most voted precommit hash
+				Alt: []G{{Pattern: "(@slices.IndexFunc($s.Voting.RoundView.ProposedHeaders,$c) < 0)", Holds: false,
+					Filter: func(b Bind) bool { return closureComparesHeaderHash(w, a, b["$c"]) }}}},
 		)
 		// whatever the shift's signature (a details struct, or separate parameters): every header handed
 		// to it is an element of the voting view's proposed headers and every validator set is that
